@@ -199,7 +199,9 @@ class DualQuaternion:
                 return DualQuaternion(real, dual)
         elif isinstance(left, UnitDualQuaternion) and base.isvector(right, 3):
             v = base.getvector(right, 3)
-            vp = left * DualQuaternion.Pure(v) * left.conj()
+            # p' = q (1 + eps p) q*, where q* conjugates both quaternions and negates the dual part
+            qc = DualQuaternion(left.real.conj(), -1 * left.dual.conj())
+            vp = left * DualQuaternion.Pure(v) * qc
             return vp.dual.v
         else:
             raise ValueError('bad operands to dual quaternion *')
